@@ -1521,8 +1521,12 @@ class LangServer:
         params: dict = request["params"]
         uri: str = params["textDocument"]["uri"]
         filepath = path_from_uri(uri)
-        # Skip update and remove objects if file is deleted
-        if did_close and (not os.path.isfile(filepath)):
+        # Skip update and remove objects if file is deleted, or if it is not one of
+        # the source files of the workspace (e.g. an include file with another
+        # suffix): it is known only while it is open
+        if did_close and (
+            not os.path.isfile(filepath) or filepath not in self._get_source_files()
+        ):
             # Remove old objects from tree
             file_obj = self.workspace.get(filepath)
             if file_obj is not None:
